@@ -7,17 +7,17 @@ ASSUME = ['clang-14 -O1 lowering preserves semantics; llsym implements the IR se
 NP = 14
 
 
-def jobs(tier, pid='C11', mode=1):
+def jobs(tier, pid='C11', mode=1, config='haswell', defines=(), nmax=None, small=False):
     q = tier == 'quick'; J = []
     def add(name, params, bound, nproc=1, **kw):
-        J.append(Job('%s.%s' % (pid, name), 'harness/c_ondemand.cpp', '@h_ondemand', [mode] + params, keep=['parseFloatingFast', 'ParseFloatingNormalFast', 'parseFloatEiselLemire64', 'AtofNative'],
+        J.append(Job('%s.%s' % (pid, name), 'harness/c_ondemand.cpp', '@h_ondemand', [mode] + params, config=config, defines=defines, keep=['parseFloatingFast', 'ParseFloatingNormalFast', 'parseFloatEiselLemire64', 'AtofNative'],
                      stubs='stubs_number', nproc=nproc, bound=bound, timeout=3400, max_paths=3000000, **kw))
-    N = 7 if q else 9
+    N = nmax if nmax is not None else (7 if q else 9)
     for path in range(NP):
         for n in range(0, N + 1):
             add('free%d.p%d' % (n, path), [path, 0, n], 'every byte string of length %d, path #%d' % (n, path), nproc=1 if n < 7 else 4)
     # tail-length families: filler of 32k+r / 64k+r bytes then 4 symbolic bytes, inside string / array / object / top level
-    fills = [30, 31, 32, 33, 34, 62, 63, 64, 65, 66] if q else list(range(28, 37)) + list(range(60, 69)) + [126, 127, 128, 129, 130]
+    fills = [31, 32, 33, 64, 65] if small else [30, 31, 32, 33, 34, 62, 63, 64, 65, 66] if q else list(range(28, 37)) + list(range(60, 69)) + [126, 127, 128, 129, 130]
     for sk in range(5):
         for kind in (0, 1):
             for f in fills:
